@@ -76,16 +76,16 @@ fn sign_twice(param_bytes: &[u8], heights: &[u32]) {
     let r2 = hbs_lms::sign::<H>(&msg, &key, &mut cb2, None).unwrap();
     let (a, b): (&[u8], &[u8]) = (r1.as_ref(), r2.as_ref());
     assert!(a.len() == b.len(), "same signature length");
-    assert!(a.len() <= 400, "contract signatures are short");
+    assert!(a.len() <= 40, "contract signatures are short");
     let mut i = 0;
-    while i < 400 { if i < a.len() { assert!(a[i] == b[i], "signing twice from the same key bytes gives byte-identical signatures"); } i += 1; }
+    while i < 40 { if i < a.len() { assert!(a[i] == b[i], "signing twice from the same key bytes gives byte-identical signatures"); } i += 1; }
     assert!(s1 == s2, "and the same successor key");
     let mut sk = SigningKey::<H>::from_bytes(&key).unwrap();
     let r3 = sk.try_sign(&msg).unwrap();
     let d: &[u8] = r3.as_ref();
     assert!(d.len() == a.len(), "in-memory entry point: same length");
     let mut i = 0;
-    while i < 400 { if i < a.len() { assert!(a[i] == d[i], "the in-memory signing key yields the same signature as the byte-level function"); } i += 1; }
+    while i < 40 { if i < a.len() { assert!(a[i] == d[i], "the in-memory signing key yields the same signature as the byte-level function"); } i += 1; }
     assert!(eq(sk.as_slice(), &s1), "and the same successor key");
     kani::cover!(c == (1u64 << total) - 1, "last leaf");
 }
